@@ -172,13 +172,23 @@ def gen_update(rng, npr, tier, force_class=None):
         # the stacked data stay no larger than n_neighbors for two updates
         metric = rng.choice(["euclidean", "manhattan"]); k = 15; sizes = [6, 5, 3, 12]; n = sum(sizes); n1 = 6; d = 4
         X = npr.normal(size=(n, d))
+    sparse = False
+    if cls == "sparse_special":
+        # CSR input with a metric scikit-learn cannot evaluate on sparse data (fit / transform take umap's own fallback paths)
+        metric = rng.choice(["chebyshev", "canberra", "braycurtis"]); sparse = True
+        X = np.abs(npr.normal(size=(n, d))) * (npr.random(size=(n, d)) < 0.7) + 0.0
+        X[X.sum(axis=1) == 0, 0] = 1.0
     X = X.astype(np.float32)
     p = dict(n_neighbors=k, metric=metric, n_epochs=11, random_state=rng.randrange(1000), set_op_mix_ratio=rng.choice([1.0, 1.0, 0.5]))
     if cls == "disc":
         Dm = pairwise_distances(X, metric=UD.named_distances[metric])
         kth = np.sort(Dm, axis=1)[:, min(k, n - 1) - 1]
         p["disconnection_distance"] = float(np.quantile(kth, rng.uniform(0.6, 0.95)))
-    return dict(X=X, sizes=sizes, params=p, cls=cls)
+    return dict(X=X, sizes=sizes, params=p, cls=cls, sparse=sparse)
+
+
+def as_input(case, A):
+    return sp.csr_matrix(A) if case.get("sparse") else A.copy()
 
 
 def disc_of(p):
@@ -203,19 +213,19 @@ def run_update_case(case):
     X, sizes, p = case["X"], case["sizes"], case["params"]
     ob = dict(ks=[], err=None)
     cuts = np.cumsum(sizes)
-    m = umap.UMAP(**p).fit(X[: cuts[0]].copy())
+    m = umap.UMAP(**p).fit(as_input(case, X[: cuts[0]]))
     ob["ks"].append(int(m._n_neighbors)); ob["iso_first"] = isolated(m.graph_)
     for a, b in zip(cuts[:-1], cuts[1:]):
         nan_rows = int(np.isnan(m.embedding_).any(axis=1).sum())
         try:
-            m.update(X[a:b].copy())
+            m.update(as_input(case, X[a:b]))
         except Exception as e:
             ob["err"] = (type(e).__name__, str(e)[:200], int(b), nan_rows); break
         ob["ks"].append(int(m._n_neighbors))
         if b < cuts[-1]:      # intermediate stage of a multi-batch history: compare with a fresh fit on the data stacked so far
-            fi = umap.UMAP(**p).fit(X[:b].copy())
+            fi = umap.UMAP(**p).fit(as_input(case, X[:b]))
             ob.setdefault("steps", []).append((int(b), gdiff(m.graph_, fi.graph_), int(m._n_neighbors), int(fi._n_neighbors)))
-    f = umap.UMAP(**p).fit(X.copy())
+    f = umap.UMAP(**p).fit(as_input(case, X))
     ob["k_fresh"] = int(f._n_neighbors)
     ob["model"], ob["fresh"] = m, f
     return ob
@@ -267,13 +277,26 @@ def oracle_update(ctx, case, ob, Ynew):
         ctx.fail("update:embedding_nonfinite%s" % (":far_group" if far else ""), "%d non-finite embedding rows after update" % int((~np.isfinite(E).all(axis=1)).sum()), desc); ok = False
     # stays usable: transform and a further update behave as on the fresh model
     try:
-        t1, t2 = m.transform(Ynew.copy()), f.transform(Ynew.copy())
+        # the neighbour graph transform builds for new points depends on the training data and the graph-stage parameters only:
+        # it must be the fresh model's (read through the public transform_mode attribute; restored afterwards)
+        if iso == 0 and ok:
+            tm_m, tm_f = m.transform_mode, f.transform_mode
+            try:
+                m.transform_mode = f.transform_mode = "graph"
+                g1, g2 = m.transform(as_input(case, Ynew)), f.transform(as_input(case, Ynew))
+            finally:
+                m.transform_mode, f.transform_mode = tm_m, tm_f
+            mxg, supg = gdiff(g1, g2)
+            if mxg > 1e-4 or supg != 0:
+                ctx.fail("update:followup_transform_graph_differs", "the neighbour graph transform builds for new points after update differs from the fresh model's: "
+                         "max |diff| %.3g, %d entries in only one" % (mxg, supg), desc); ok = False
+        t1, t2 = m.transform(as_input(case, Ynew)), f.transform(as_input(case, Ynew))
         if t1.shape != t2.shape or t1.shape != (Ynew.shape[0], nc):
             ctx.fail("update:followup_transform_shape", "transform after update returned %r, on the fresh model %r" % (t1.shape, t2.shape), desc); ok = False
         elif iso == 0 and not np.all(np.isfinite(t1)) and np.all(np.isfinite(t2)):
             ctx.fail("update:followup_transform_nonfinite", "transform after update returned non-finite rows", desc); ok = False
         if iso == 0 and ok:
-            tr = m.transform(X.copy())
+            tr = m.transform(as_input(case, X))
             if tr.shape != (n, nc) or not np.array_equal(tr, m.embedding_, equal_nan=True):
                 ctx.fail("update:followup_transform_training_data", "transform(stacked data) after update returned shape %r, not the embedding" % (tr.shape,), desc); ok = False
     except Exception as e:
@@ -286,10 +309,10 @@ def followup_update(ctx, case, ob, extra):
     desc = dict(kind="update", X=np.vstack([X, extra]), sizes=case["sizes"] + [extra.shape[0]], params=p, cls=case["cls"] + "+followup")
     m = ob["model"]
     try:
-        m.update(extra.copy())
+        m.update(as_input(case, extra))
     except Exception as e:
         ctx.fail("update:followup_update_raises:%s" % type(e).__name__, "a further update raised %s: %s" % (type(e).__name__, e), desc); return
-    f = umap.UMAP(**p).fit(np.vstack([X, extra]))
+    f = umap.UMAP(**p).fit(as_input(case, np.vstack([X, extra])))
     mx, sup = gdiff(m.graph_, f.graph_)
     if mx > GTOL or sup != 0:
         ctx.fail("update:graph_differs:%s" % classify(dict(case, X=desc["X"], sizes=desc["sizes"])),
@@ -372,7 +395,7 @@ def run(ctx):
     n_upd = 36 if ctx.tier == "quick" else 600
     n_graph = 8 if ctx.tier == "quick" else 60
     max_graph_n = 44 if ctx.tier == "quick" else 60
-    forced = ["plain", "far", "n1_le_k", "disc", "two_batches", "far_two", "bounded_far", "bounded_far", "tiny_stack"]
+    forced = ["plain", "far", "n1_le_k", "disc", "two_batches", "far_two", "bounded_far", "bounded_far", "tiny_stack", "sparse_special", "sparse_special"]
     kterms, kcases, gterms, gcases = [], [], [], []
     for c in range(n_upd):
         case = gen_update(rng, npr, ctx.tier, forced[c] if c < len(forced) else None)
